@@ -241,13 +241,32 @@ def gen_surface(rng, tier):
         if planar and rng.random() < 0.3:
             V, F = split_face(rng, V, F)
             shape += "+split"
-        iso = rng.random() < 0.06
-        V, F = scramble_surface(rng, V, F, isolated=iso)
+        r2 = rng.random()
+        iso = r2 < 0.06
+        free = 0.06 <= r2 < 0.11
+        V, F = scramble_surface(rng, V, F, isolated=iso or free)
         if iso:
             shape += "+isolated-vertex"
+        E = None
+        if free:
+            # explicit edge list: every face edge, plus one edge of no face towards the extra vertex (last, or anywhere)
+            shape += "+explicit-edges+free-edge"
+            es = sorted({(min(f[k], f[(k + 1) % 3]), max(f[k], f[(k + 1) % 3])) for f in F for k in range(3)})
+            rng.shuffle(es)
+            used = {x for f in F for x in f}
+            w = [i for i in range(len(V)) if i not in used][0]
+            fe = (min(w, F[0][0]), max(w, F[0][0]))
+            if rng.random() < 0.7:
+                es.append(fe)
+            else:
+                es.insert(rng.randrange(len(es) + 1), fe)
+            E = [list(e) for e in es]
         if nondegenerate_faces(V, F) and (not shape.startswith(("planar-grid", "height-field")) or projection_embedded(V, F)):
             planar = all(p[2] == V[0][2] for p in V) and all(p[2] == 0 for p in V)
-            return {"kind": "surface", "V": V, "F": [list(f) for f in F], "shape": shape, "planar": planar}
+            c = {"kind": "surface", "V": V, "F": [list(f) for f in F], "shape": shape, "planar": planar}
+            if E is not None:
+                c["E"] = E
+            return c
     raise RuntimeError("generator failed to produce a non-degenerate surface")
 
 
@@ -354,15 +373,54 @@ Q_CLOSE_PLANAR = {"lap:1", "ced:1", "ced:0", "laptri:1", "lapedges:1", "massv:0,
 Q_CLOSE_VOL = {"massvv:0,0", "massvv:1,0", "massvc:0,0", "massvc:1,0"}
 
 
-def finish_case(rng, c):
+SURF_PRE = ["face_area", "cotangent", "corner_angles", "face_normals", "vertex_normals", "edge_length"]
+VOL_PRE = ["cell_volume", "edge_length", "face_area"]
+LINE_PRE = ["edge_length"]
+
+
+def finish_case(rng, c, sequence=None):
+    """attach the operator calls: every operator on a fresh mesh, or (sequence) a random call sequence on one mesh object"""
     if c["kind"] == "surface":
-        c["ops"] = list(SURF_OPS) + (FLAT_OPS if c.get("planar") else [])
+        ops = list(SURF_OPS) + (FLAT_OPS if c.get("planar") else [])
+        pre = SURF_PRE
+        if c.get("E"):   # dangling edges: the connection / feature detector is outside C08 there
+            ops = [o for o in ops if not o.startswith("grad")]
+            pre = [a for a in pre if a != "vertex_normals"]
     elif c["kind"] == "volume":
-        c["ops"] = list(VOL_OPS)
+        ops = list(VOL_OPS)
+        pre = VOL_PRE
     else:
-        c["ops"] = list(LINE_OPS)
+        ops = list(LINE_OPS)
+        pre = LINE_PRE
     c["custom_w"] = [rng.randint(-8, 24) / 4.0 for _ in range(200)]
+    if sequence is None:
+        sequence = "seq" in c
+    if sequence and "seq" not in c:
+        n = rng.randint(6, 16)
+        seq = [rng.choice(ops) for _ in range(n)]
+        # an option variant followed by the plain operator again, and plain repeats: what a stale / clobbered cache would break
+        fam = [o for o in ops if ":" in o and o.split(":")[0] in ("massv", "massf", "masse", "massvv", "massvc", "ced", "lap", "laptri", "lapedges")]
+        if fam:
+            o = rng.choice(fam)
+            base = o.split(":")[0]
+            sib = [x for x in ops if x.split(":")[0] == base]
+            plain = sib[0]
+            k = rng.randrange(len(seq) + 1)
+            seq[k:k] = [plain, o, plain]
+        for _ in range(rng.randint(1, 3)):
+            seq.append(rng.choice(seq))
+        c["seq"] = seq
+        c["pre"] = [a for a in pre if rng.random() < 0.35]
+        rng.shuffle(c["pre"])
+    c["ops"] = list(c["seq"]) if "seq" in c else ops
     return c
+
+
+def results_of(case, obs):
+    """[(operator name, what the implementation returned)] in call order"""
+    if "steps" in obs:
+        return [(st["op"], st) for st in obs["steps"]]
+    return [(nm, obs["outs"].get(nm)) for nm in case["ops"]]
 
 
 # ====================================================================== Gallina encoders
@@ -434,12 +492,13 @@ def zt(t):
     return "(" + ", ".join(zlit(int(x)) for x in t) + ")"
 
 
-def out_terms(case, obs, names):
-    """list of '(opc, shape, entries)' terms for the named operators (None if some cannot be encoded)."""
+def out_terms(case, obs, keep):
+    """list of '(opc, shape, entries)' terms for the calls whose operator name satisfies `keep` (None if one cannot be encoded)."""
     res = []
     ne = len(obs["edges"])
-    for nm in names:
-        o = obs["outs"].get(nm)
+    for nm, o in results_of(case, obs):
+        if not keep(nm):
+            continue
         if o is None or "error" in o:
             return None
         sh = zt(o["shape"])
@@ -458,8 +517,11 @@ def out_terms(case, obs, names):
     return res
 
 
-def case_term(case, obs, names):
-    outs = out_terms(case, obs, names)
+def case_term(case, obs, keep=lambda nm: True):
+    if not callable(keep):
+        names = set(keep)
+        keep = lambda nm: nm in names
+    outs = out_terms(case, obs, keep)
     if outs is None:
         return None
     return "(mkcase %s %s %s %s %s)" % (
@@ -508,6 +570,8 @@ def indep_edges(case):
             for k in range(3):
                 a, b = f[k], f[(k + 1) % 3]
                 s.add((min(a, b), max(a, b)))
+        for a, b in case.get("E") or []:
+            s.add((min(a, b), max(a, b)))
     elif case["kind"] == "volume":
         for c in case["C"]:
             for i in range(4):
@@ -519,7 +583,49 @@ def indep_edges(case):
     return s
 
 
+def same_result(a, b):
+    if ("error" in a) != ("error" in b):
+        return False
+    if "error" in a:
+        return True
+    if a["shape"] != b["shape"] or bool(a.get("complex")) != bool(b.get("complex")):
+        return False
+    return close(dense(a, a.get("complex")), dense(b, b.get("complex")), 1e-12)
+
+
 def oracle(case, obs):
+    """C08 on what the implementation returned. For a call sequence on one mesh object: the identities must hold for the
+    first and for the last answer of every operator, a repeated call must return the same matrix, and no call may change
+    anything already stored on the mesh (vertices, elements, attributes)."""
+    if "steps" not in obs:
+        return oracle_outs(case, obs)
+    if "error" in obs:
+        return [("build", "mesh construction failed: " + obs["error"])]
+    bad = []
+    for nm, st in obs.get("pre", []):
+        if st != "ok":
+            bad.append(("seq/pre-error", "attributes.%s raised %s" % (nm, st)))
+    first, last = {}, {}
+    for k, st in enumerate(obs["steps"]):
+        nm = st["op"]
+        if st.get("mutated"):
+            bad.append(("seq/mutates-mesh", "call %d (%s) changed data already stored on the mesh: %s" % (k, nm, ", ".join(st["mutated"]))))
+        if nm in first and not same_result(first[nm], st):
+            bad.append(("seq/changed-on-repeat", "call %d (%s) returns a different matrix than the first call of %s on the same mesh" % (k, nm, nm)))
+        first.setdefault(nm, st)
+        last[nm] = st
+    seen = set()
+    for outs in (first, last):
+        o2 = dict(obs)
+        o2["outs"] = outs
+        for key, msg in oracle_outs(case, o2):
+            if (key, msg) not in seen:
+                seen.add((key, msg))
+                bad.append((key, msg))
+    return bad
+
+
+def oracle_outs(case, obs):
     """Returns a list of (class-key, message) for every clause of C08 the observed matrices violate."""
     bad = []
     if "error" in obs:
@@ -724,8 +830,9 @@ def oracle(case, obs):
             d = np.diag(Me)
             if not close(Me, np.diag(d)):
                 bad.append(("masse/diagonal", "area_weight_matrix_edges is not diagonal"))
-            if np.any(d <= 0):
-                bad.append(("masse/positive", "area_weight_matrix_edges has a non-positive entry"))
+            faced = np.array([any(a in f and b in f for f in F) for a, b in E], dtype=bool)
+            if np.any(d[faced] <= 0):
+                bad.append(("masse/positive", "area_weight_matrix_edges has a non-positive entry on an edge of a face"))
             if not close(d.sum(), tot):
                 bad.append(("masse/total", "area_weight_matrix_edges sums to %r, total area is %r" % (d.sum(), tot)))
             Mi = get("masse:1", (m, m))
@@ -799,7 +906,7 @@ def one(case):
 
 def compact(case):
     """drop unused vertices (keeps order)"""
-    elems = case.get("F") or case.get("C") or case.get("E")
+    elems = list(case.get("F") or case.get("C") or []) + list(case.get("E") or [])
     used = sorted({x for el in elems for x in el})
     mp = {v: i for i, v in enumerate(used)}
     c = dict(case)
@@ -810,14 +917,32 @@ def compact(case):
     return c
 
 
-def shrink(case, key):
+def shrink(case, key, budget=45):
+    left = [budget]
+
     def fails(c):
+        if left[0] <= 0:
+            return False
+        left[0] -= 1
         try:
             return any(k == key for k, _ in oracle(c, one(c)))
         except Exception:
             return False
     ek = "F" if case["kind"] == "surface" else ("C" if case["kind"] == "volume" else "E")
     cur = case
+    if "seq" in cur:
+        for field in ("pre", "seq"):
+            changed = True
+            while changed and len(cur[field]) > (1 if field == "seq" else 0):
+                changed = False
+                for i in range(len(cur[field])):
+                    cand = dict(cur)
+                    cand[field] = cur[field][:i] + cur[field][i + 1:]
+                    cand["ops"] = list(cand["seq"])
+                    if fails(cand):
+                        cur = cand
+                        changed = True
+                        break
     changed = True
     while changed and len(cur[ek]) > 1:
         changed = False
@@ -843,6 +968,10 @@ def run(ctx):
     n_surf, n_vol, n_line = (130, 45, 35) if quick else (1400, 350, 250)
     ctx.rule = ("integer-coordinate meshes: open/closed fans, closed polyhedra, planar lattice grids and height fields with "
                 "random diagonals, holes, 1->3 splits, renumbering, face rotation, both orientations, occasional isolated vertex; "
+                "3 cases in 5: every operator with every option, each on a fresh mesh; 2 in 5: a random call SEQUENCE (with repeats, "
+                "option variants between two plain calls) on ONE mesh object after a random set of mouette.attributes was computed "
+                "persistently, each answer compared with the model, repeated answers compared with each other, and a snapshot of "
+                "everything stored on the mesh taken before/after each call; "
                 "tet meshes (1, 2, 5-/6-tet cubes, 1->4 split, jitter, permuted cells); polylines (paths, cycles, stars, trees+chords). "
                 "Every operator with every option on a fresh mesh. Non-trivial = surface with an interior edge / >= 2 cells / >= 2 edges; "
                 "distinct = canonical JSON of (V, elements)")
@@ -859,14 +988,17 @@ def run(ctx):
         for f in sorted(os.listdir(cdir)):
             if f.endswith(".json"):
                 cases.append(finish_case(ctx.rng, json.load(open(os.path.join(cdir, f)))))
-    cases += [finish_case(ctx.rng, gen_surface(ctx.rng, ctx.tier)) for _ in range(n_surf)]
-    cases += [finish_case(ctx.rng, gen_volume(ctx.rng, ctx.tier)) for _ in range(n_vol)]
-    cases += [finish_case(ctx.rng, gen_polyline(ctx.rng, ctx.tier)) for _ in range(n_line)]
+    cases += [finish_case(ctx.rng, gen_surface(ctx.rng, ctx.tier), sequence=(i % 5 >= 3)) for i in range(n_surf)]
+    cases += [finish_case(ctx.rng, gen_volume(ctx.rng, ctx.tier), sequence=(i % 5 >= 3)) for i in range(n_vol)]
+    cases += [finish_case(ctx.rng, gen_polyline(ctx.rng, ctx.tier), sequence=(i % 5 >= 3)) for i in range(n_line)]
     obs = run_impl_cases(cases)
     ctx.log("implementation ran on %d cases" % len(cases))
 
     for c in cases:
         ctx.count("kind=" + c["kind"])
+        ctx.count("mode=" + ("call sequence on one mesh" if "seq" in c else "every operator on a fresh mesh"))
+        for a_ in c.get("pre", []):
+            ctx.count("pre-computed attribute " + a_)
         ctx.count("shape=" + c["shape"])
         ne = len(c.get("F") or c.get("C") or c.get("E"))
         ctx.count("%s elements<=%d" % (c["kind"], 1 if ne <= 1 else 4 if ne <= 4 else 12 if ne <= 12 else 24 if ne <= 24 else 60))
@@ -898,7 +1030,7 @@ def run(ctx):
         for idx, (c, o) in enumerate(zip(cases, obs)):
             if "error" in o:
                 continue
-            t = case_term(c, o, c["ops"])
+            t = case_term(c, o)
             if t is None:
                 bads.setdefault("float", []).append(idx)
                 continue
@@ -950,10 +1082,12 @@ def run(ctx):
         small = shrink({k: v for k, v in cases[idx].items()}, key)
         ob = one(small)
         msgs = [m_ for k_, m_ in oracle(small, ob) if k_ == key] or [msg]
-        ctx.violation(msgs[0], {"case": small, "class": key,
-                                "observed": {k_: v_ for k_, v_ in ob["outs"].items() if k_.split("/")[0].split(":")[0] in key}},
-                      key=key)
-        if len(reported) >= 12:
+        if "steps" in ob:
+            observed = [{k_: st[k_] for k_ in ("op", "shape", "ent", "error", "mutated") if k_ in st} for st in ob["steps"]][:8]
+        else:
+            observed = {k_: v_ for k_, v_ in ob["outs"].items() if k_.split("/")[0].split(":")[0] in key}
+        ctx.violation(msgs[0], {"case": small, "class": key, "observed": observed}, key=key)
+        if len(reported) >= 6:
             break
     disagree = sorted({i for k in bads for i in bads[k] if i >= 0})
     if disagree and not fails:
